@@ -22,12 +22,12 @@ Lemma mgr_get_res r :
 Proof. destruct r; reflexivity. Qed.
 
 (** The six handlers that look a message up, as functions of the store's answer. *)
-Definition lookup_resps (mb : str) (num : N) (a : get_ans) : list resp :=
+Definition lookup_resps (mb rid : str) (num : N) (a : get_ans) : list resp :=
   let r := mgr_get a in
-  [h_show mb r; h_uimsg mb r; h_src r; h_uihtml r; h_uisrc r; h_uiatt num r].
+  [h_show mb rid r; h_uimsg mb r; h_src r; h_uihtml r; h_uisrc r; h_uiatt num r].
 
-Lemma lookup_no_panic mb num a r :
-  ans_wf a = true -> In r (lookup_resps mb num a) -> fst r <> SPanic.
+Lemma lookup_no_panic mb rid num a r :
+  ans_wf a = true -> In r (lookup_resps mb rid num a) -> fst r <> SPanic.
 Proof.
   intros W. pose proof (mgr_get_wf a W) as NN.
   unfold lookup_resps. destruct (mgr_get a) as [[v|] e] eqn:E.
@@ -44,7 +44,7 @@ Qed.
 Example nilnil_panics :
   let a := {| ga_msg := None; ga_err := ENil; ga_src := true |} in
   ans_wf a = false /\ fst (h_uihtml (mgr_get a)) = SPanic /\ fst (h_uisrc (mgr_get a)) = SPanic
-  /\ fst (h_uiatt 0 (mgr_get a)) = SPanic /\ fst (h_show [] (mgr_get a)) = S404.
+  /\ fst (h_uiatt 0 (mgr_get a)) = SPanic /\ fst (h_show [] [] (mgr_get a)) = S404.
 Proof. repeat split. Qed.
 
 Lemma h_unit_no_panic e : fst (h_unit e) <> SPanic.
@@ -64,7 +64,7 @@ Lemma run_handler_no_panic st h name id num body :
   fst (snd (run_handler mfa cfg st h name id num body)) <> SPanic.
 Proof.
   unfold run_handler. destruct (mfa name) as [mb|]; [|discriminate].
-  assert (L : forall n r, In r (lookup_resps mb n (st_get cfg st mb id)) -> fst r <> SPanic)
+  assert (L : forall n r, In r (lookup_resps mb id n (st_get cfg st mb id)) -> fst r <> SPanic)
     by (intros n r; apply lookup_no_panic, st_get_wf).
   destruct h.
   - destruct (exec_spec cfg st (Lst mb)) as [[s o] e]. discriminate.
